@@ -464,6 +464,7 @@ def run(ctx):
     try:
         unit_suites(ctx, w)
         decryptor_suite(ctx, w)
+        sessionkey_length_suite(ctx, w)
         encryptor_suite(ctx, w)
         ctx.notes.append('oracle calls: %s' % dict(sorted(w.orc.calls.items())))
     finally:
@@ -626,7 +627,7 @@ def unit_suites(ctx, w):
             b2 = bytearray(body); b2[bs + rng.randrange(2)] ^= 1 << rng.randrange(8)
             pt = bytearray(bytes(b2) + b'\xd3\x14' + hashlib.sha1(bytes(b2) + b'\xd3\x14').digest())
         elif mode == 6:   # shorter than prefix + MDC but with a correct MDC over what is there
-            b2 = body[:rng.randrange(0, bs + 2)]
+            b2 = body[:0 if (i // 10) % 3 == 0 else rng.randrange(0, bs + 2)]
             pt = bytearray(b2 + b'\xd3\x14' + hashlib.sha1(b2 + b'\xd3\x14').digest())
         elif mode == 7:
             pt = bytearray(rng.randrange(256) for _ in range(rng.randrange(0, 60)))
@@ -750,7 +751,7 @@ def gen_body(ctx, kind):
         n = ctx.n(20000, 300000)
         return bytes(rng.getrandbits(8) for _ in range(1000)) * (n // 1000)   # compressible bulk
     if kind == 'incompressible':
-        n = ctx.n(20000, 1 << 20)
+        n = ctx.n(20000, (1 << 20) if rng.random() < 0.2 else 150000)
         return rng.getrandbits(8 * n).to_bytes(n, 'big')
     raise ValueError(kind)
 
@@ -763,7 +764,7 @@ def gen_recipients(ctx, w, i):
     out = []
     for j in range(n):
         if rng.random() < 0.4:
-            cnt = rng.choice([0, 16, 96, 96, 120]) if (ctx.quick and rng.random() < 0.93) or rng.random() < 0.8 else 255
+            cnt = rng.choice([0, 16, 96, 96, 120]) if (ctx.quick and rng.random() < 0.93) or rng.random() < 0.94 else 255
             out.append(('P', rng.choice(['pw', 'correct horse', 'päss wörd', 'x' * 70, ' ']) + str(j), rng.choice(w.s2k_hashes), cnt))
         else:
             kn = rng.choice(knames)
@@ -778,14 +779,14 @@ def decryptor_suite(ctx, w):
     """(a) PGPy encrypts; the extracted model parses the packets and decrypts through the oracle; PGPy decrypts its own output"""
     pgpy, d, rng = w.pgpy, w.d, ctx.rng
     Z = w.Z
-    total = ctx.n(110, 2600)
+    total = ctx.n(110, 1800)
     kinds = ['empty', 'text', 'unicode', 'binary', 'binary', 'text', 'large', 'incompressible']
     signer = w.keys.get('ed25519')
     for i in range(total):
         kind = kinds[i % len(kinds)] if i % 9 else rng.choice(kinds[:6])
         if kind in ('large', 'incompressible') and ctx.quick and i > 24:
             kind = 'binary'
-        if kind in ('large', 'incompressible') and not ctx.quick and i % 40 not in (6, 7):
+        if kind in ('large', 'incompressible') and not ctx.quick and i % 120 not in (6, 7):
             kind = 'text'
         body = gen_body(ctx, kind)
         comp = rng.choice(list(Z)) if i % 4 else list(Z)[(i // 4) % len(list(Z))]
@@ -847,6 +848,49 @@ def decryptor_suite(ctx, w):
                 ctx.fail('roundtrip', 'caller-supplied session key does not decrypt the data packet', case0)
 
 
+def sessionkey_length_suite(ctx, w):
+    """caller-supplied session keys whose length is not the key size of the cipher: a key recipient must be refused at
+    encryption time (PGPEncryptionError; the model's pkesk_encrypt refuses too); a passphrase recipient carries the key
+    verbatim, so whatever the cipher family accepts must round-trip (also through the independent decryptor)"""
+    pgpy, d, rng = w.pgpy, w.d, ctx.rng
+    with warnings.catch_warnings():
+        warnings.simplefilter('ignore')
+        m = pgpy.PGPMessage.new(b'session key length', compression=w.Z.Uncompressed)
+    inner = bytes(m.__bytes__())
+    want = canon_plain(m)
+    for alg, n in ((9, 16), (9, 24), (9, 0), (9, 31), (9, 33), (7, 15), (7, 32), (8, 16), (2, 16), (13, 16), (3, 8)):
+        if alg not in w.ciphers:
+            continue
+        sk = bytes(rng.randrange(256) for _ in range(n))
+        for kn in [k for k in ('rsa2048', 'ed25519', 'p256') if k in w.keys]:
+            o = outcome(w.impl_encrypt, m, [('K', kn)], alg, sk)
+            case = {'op': 'sklen', 'alg': alg, 'n': n, 'key': kn}
+            ctx.case('sessionkey-length', (alg, n, kn), nontrivial=False, sample=dict(case, impl=repr(o)[:60]))
+            if o[0] != 'raise':
+                ctx.fail('sessionkey-length', 'PGPKey.encrypt accepted a session key nobody can decrypt with', case)
+            mo = d.call('enc_msg', hn(alg), hx(sk), hx(bytes(BLOCK[alg])), hx(inner), 'K,' + keydesc1(enc_target(w, kn)))
+            if not mo.startswith('raise'):
+                ctx.fail('sessionkey-length', 'model encrypt_to accepted a session key of the wrong length', dict(case, model=mo[:60]))
+        r = ('P', 'pw', 8, 16)
+        o = outcome(w.impl_encrypt, m, [r], alg, sk)
+        case = {'op': 'sklen', 'alg': alg, 'n': n, 'key': 'passphrase'}
+        ctx.case('sessionkey-length', (alg, n, 'P'), nontrivial=o[0] == 'ok', sample=dict(case, impl=repr(o)[:60]))
+        try:
+            cfb(alg, sk, b'x', True)
+            usable = True
+        except Exception:
+            usable = False
+        if (o[0] == 'ok') != usable:
+            ctx.fail('sessionkey-length', 'PGPMessage.encrypt and the cipher family disagree on a session key length', dict(case, impl=repr(o)[:100]))
+        if o[0] == 'ok':
+            raw = bytes(o[1].__bytes__())
+            if w.impl_decrypt(raw, r) != ('ok', want):
+                ctx.fail('sessionkey-length', 'passphrase message with an unusual session key length does not round-trip', dict(case, blob=raw.hex()))
+            mo = w.model_decrypt(raw, r)
+            if not (mo.startswith('ok ') and unhx(mo[3:]) == inner):
+                ctx.fail('sessionkey-length', 'independent decryptor disagrees on a passphrase message with an unusual session key length', dict(case, blob=raw.hex(), model=mo[:80]))
+
+
 def model_recipient(w, r, salt=None):
     if r[0] == 'P':
         return ','.join(['P', hx(r[1].encode('utf-8')), hn(r[4] if len(r) > 4 else 3), hn(r[2]), hx(salt), hn(r[3])])
@@ -876,7 +920,7 @@ def encryptor_suite(ctx, w):
     ECDH ephemeral through the oracle); PGPy must decrypt them to the original"""
     pgpy, d, rng = w.pgpy, w.d, ctx.rng
     Z = w.Z
-    total = ctx.n(45, 1200)
+    total = ctx.n(45, 800)
     for i in range(total):
         alg = w.ciphers[i % len(w.ciphers)]
         body = gen_body(ctx, ['text', 'binary', 'empty', 'unicode'][i % 4])
